@@ -118,12 +118,12 @@ def operator_classes(prog):
 
 def shortcut_dominance(rep, ex: Explorer):
     """Who-may-call: `_inference` is called only by general_inference, `_preprocess_belief_base` only by
-    preprocess_belief_base, general_inference only by the two query wrappers; no operator overrides a wrapper."""
+    preprocess_belief_base; no operator overrides a wrapper."""
     prog = ex.prog
     n_sites = 0
-    allowed = {"_inference": {f"{INF}.general_inference"}, "_preprocess_belief_base": {f"{INF}.preprocess_belief_base"},
-               "general_inference": {f"{INF}.single_inference", f"{INF}._multi_inference_worker"}}
-    rules = {"_inference": "SHORTCUT.dominance", "_preprocess_belief_base": "REFUSE", "general_inference": "SHORTCUT.dominance"}
+    # (who calls general_inference is free: the guard is inside it)
+    allowed = {"_inference": {f"{INF}.general_inference"}, "_preprocess_belief_base": {f"{INF}.preprocess_belief_base"}}
+    rules = {"_inference": "SHORTCUT.dominance", "_preprocess_belief_base": "REFUSE"}
     for fi in prog.functions.values():
         for n in ast.walk(fi.node):
             if isinstance(n, ast.Call) and isinstance(n.func, ast.Attribute) and n.func.attr in allowed:
@@ -151,7 +151,7 @@ def shortcut_dominance(rep, ex: Explorer):
             rep.check(ok, "SHORTCUT.dominance" if m != "preprocess_belief_base" else "REFUSE", f"{ci.module.replace('.', '/')}.py:{c.rsplit('.', 1)[1]}", f"override of {m}",
                       f"operator class does not override the shared wrapper {m}", extracted="overridden" if not ok else "inherited", required="inherited",
                       function=f"{ci.module.replace('.', '/')}.py:{c.rsplit('.', 1)[1]}.{m}")
-    rep.floor("call sites of operator hooks / general_inference", n_sites, 4)
+    rep.floor("call sites of operator hooks", n_sites, 2)
     rep.floor("operator classes", len(ops), 7)
     return ops
 
@@ -346,33 +346,13 @@ def _refuse_manager(rep, ex: Explorer):
             rep.check(not dele and p.outcome[0] == "return", "TIMEOUT.row", site, "after preprocessing expiry", "no query is evaluated on a base whose preprocessing expired",
                       extracted=f"{p.outcome[0]}, {len(dele)} evaluation call(s)", required="rows without evaluation", function=site)
     rep.floor("refusal paths of Inference.inference", n, 1)
-    # manager: preprocess_belief_base precedes inference on every path
-    qual2 = "inference.inference_manager.InferenceManager.inference"
-    site2 = fn_label(ex.prog, qual2)
-    fi = ex.prog.function(qual2)
-    order = []
-    for n_ in ast.walk(fi.node):
-        if isinstance(n_, ast.Call) and isinstance(n_.func, ast.Attribute) and n_.func.attr in ("preprocess_belief_base", "inference"):
-            order.append((n_.lineno, n_.col_offset, n_.func.attr, n_))
-    order.sort()
-    names = [o[2] for o in order]
-    top = {id(s): i for i, s in enumerate(fi.node.body)}
-
-    def top_index(node):
-        for i, s in enumerate(fi.node.body):
-            if any(x is node for x in ast.walk(s)):
-                return i, isinstance(s, (ast.Expr, ast.Assign))
-        return -1, False
-
-    pre = [o for o in order if o[2] == "preprocess_belief_base"]
-    inf = [o for o in order if o[2] == "inference"]
-    ok = bool(pre) and bool(inf)
-    if ok:
-        pi, punc = top_index(pre[0][3])
-        ii, _ = top_index(inf[0][3])
-        ok = punc and pi < ii
-    rep.check(ok, "REFUSE", site2, "preprocess before inference", "the manager preprocesses (unconditionally) before it evaluates queries",
-              extracted=" -> ".join(names), required="preprocess_belief_base (top level) before inference", function=site2)
+    # manager: preprocess_belief_base precedes inference on every path (decided on the paths of the manager's row rule)
+    saved = rep.only
+    rep.only = {"REFUSE"} if (saved is None or "REFUSE" in saved) else set()
+    try:
+        _manager_rows(rep, ex, {})
+    finally:
+        rep.only = saved
 
 
 # ----------------------------------------------------------------------------------------------
@@ -382,43 +362,78 @@ def timeout_flow(rep, ex: Explorer):
     prog = ex.prog
     wrappers = {f"{INF}.single_inference", f"{INF}._multi_inference_worker", f"{INF}.preprocess_belief_base"}
     catches = ("TimeoutError", "OSError", "Exception", "BaseException", "IOError", "EnvironmentError")
+    # which functions may let a TimeoutError out (by simple callee name, an over-approximation): those that raise it
+    # themselves and, transitively, those that call one of them outside a handler that stops it
+    funcs = [fi for fi in prog.functions.values() if fi.module.startswith("inference")]
+
+    def called_names(node):
+        out = set()
+        for c in ast.walk(node):
+            if isinstance(c, ast.Call):
+                f = c.func
+                out.add(f.attr if isinstance(f, ast.Attribute) else (f.id if isinstance(f, ast.Name) else ""))
+        return out
+
+    may = {fi.node.name for fi in funcs if any(isinstance(n, ast.Raise) and n.exc is not None and "TimeoutError" in ast.unparse(n.exc) for n in ast.walk(fi.node))}
+    classes_of = {}
+    for fi in funcs:
+        if fi.node.name == "__init__" and "." in fi.qualname:
+            classes_of.setdefault(fi.qualname.rsplit(".", 2)[-2], fi)
+    changed = True
+    while changed:
+        changed = False
+        for fi in funcs:
+            if fi.node.name in may:
+                continue
+            if called_names(fi.node) & may:
+                may.add(fi.node.name)
+                changed = True
     n_handlers = 0
-    for fi in prog.functions.values():
-        if not fi.module.startswith("inference"):
-            continue
-        for n in ast.walk(fi.node):
-            if not isinstance(n, ast.ExceptHandler):
+    for fi in funcs:
+        for t in ast.walk(fi.node):
+            if not isinstance(t, ast.Try):
                 continue
-            types = []
-            if n.type is None:
-                types = ["BaseException"]
-            else:
-                for t in (n.type.elts if isinstance(n.type, ast.Tuple) else [n.type]):
-                    types.append(ast.unparse(t).rsplit(".", 1)[-1])
-            if not any(t in catches for t in types):
-                continue
-            n_handlers += 1
-            reraises = _always_raises(n.body)
-            where = f"{fi.path}:{fi.qualname[len(fi.module) + 1:]}:{n.lineno}"
-            if fi.qualname in wrappers and "TimeoutError" in types:
-                rep.ok("TIMEOUT.flow", where, "wrapper handler", "the wrapper converts an expiry into a flagged row")
-                continue
-            rep.check(reraises, "TIMEOUT.flow", where, f"handler for {'/'.join(types)}", "a handler that can catch an expiry re-raises it",
-                      extracted="re-raises" if reraises else "swallows", required="re-raise", function=f"{fi.path}:{fi.qualname[len(fi.module) + 1:]}")
+            body_calls = set()
+            for st in t.body:
+                body_calls |= called_names(st)
+            reaches = bool(body_calls & may) or any(isinstance(n, ast.Raise) and n.exc is not None and "TimeoutError" in ast.unparse(n.exc) for st in t.body for n in ast.walk(st))
+            for n in t.handlers:
+                types = []
+                if n.type is None:
+                    types = ["BaseException"]
+                else:
+                    for ty in (n.type.elts if isinstance(n.type, ast.Tuple) else [n.type]):
+                        types.append(ast.unparse(ty).rsplit(".", 1)[-1])
+                if not any(ty in catches for ty in types):
+                    continue
+                where = f"{fi.path}:{fi.qualname[len(fi.module) + 1:]}:{n.lineno}"
+                if not reaches:
+                    continue  # nothing under this handler can raise an expiry
+                n_handlers += 1
+                reraises = _always_raises(n.body)
+                if fi.qualname in wrappers and "TimeoutError" in types:
+                    rep.ok("TIMEOUT.flow", where, "wrapper handler", "the wrapper converts an expiry into a flagged row")
+                    continue
+                rep.check(reraises, "TIMEOUT.flow", where, f"handler for {'/'.join(types)}", "a handler that can catch an expiry re-raises it",
+                          extracted="re-raises" if reraises else "swallows", required="re-raise", function=f"{fi.path}:{fi.qualname[len(fi.module) + 1:]}")
     rep.floor("handlers able to catch TimeoutError", n_handlers, 3)
-    # TIMEOUT.guarded-raise
+    # TIMEOUT.guarded-raise: the three raise sites are decided by the path rules (MCS.loop / Z3MCS.loop / CHECK.three-way);
+    # a raise site anywhere else has no rule that reads its guard: recognised guard forms pass, anything else is undecided
+    COVERED = ("OptimizerRC2.minimal_correction_subsets", "SystemWZ3.get_all_xi_i", "LexInfZ3.get_all_xi_i")
     n_raise = 0
-    for fi in prog.functions.values():
-        if not fi.module.startswith("inference"):
-            continue
+    for fi in funcs:
         for n in ast.walk(fi.node):
             if isinstance(n, ast.Raise) and n.exc is not None and "TimeoutError" in ast.unparse(n.exc):
                 n_raise += 1
-                guard = _enclosing_test(fi.node, n)
                 where = f"{fi.path}:{fi.qualname[len(fi.module) + 1:]}:{n.lineno}"
+                if fi.qualname.endswith(COVERED):
+                    rep.ok("TIMEOUT.guarded-raise", where, "raise site", "decided on the paths of this function by the enumeration rules (deadline present ∧ expired, or check() not sat)")
+                    continue
+                guard = _enclosing_test(fi.node, n)
                 ok = guard is not None and ("expired" in guard or "unknown" in guard or "!= sat" in guard or "!= z3.sat" in guard or "is not sat" in guard)
-                rep.check(ok, "TIMEOUT.guarded-raise", where, "raise guard", "TimeoutError is raised only when the deadline is observed expired or the solver gave up",
-                          extracted=guard or "unguarded", required="deadline.expired() / check() not sat", function=f"{fi.path}:{fi.qualname[len(fi.module) + 1:]}")
+                if not ok:
+                    raise AnalysisError(f"{where}: a TimeoutError raise site outside the functions whose paths are analysed, guarded by {guard or 'nothing'}: cannot decide when it fires")
+                rep.ok("TIMEOUT.guarded-raise", where, "raise guard", "TimeoutError is raised only when the deadline is observed expired or the solver gave up", extracted=guard)
     rep.floor("TimeoutError raise sites", n_raise, 1)
 
 
